@@ -24,6 +24,7 @@ import LogosModel.IgnoreGroup
 import LogosModel.Assemble
 import LogosModel.LogosItems
 import LogosModel.Generics
+import LogosModel.Utf8Enc
 import LogosModel.Look.Utf8ClosedC
 import Std.Data.HashMap
 import LogosModel.Source
@@ -504,6 +505,7 @@ def answer (c : Case) (q : List String) : String :=
   | ["EQUIV", i, j] => equivVerdict c i.toNat! j.toNat!
   | ["EQUIV", i, j, f] => equivVerdict c i.toNat! j.toNat! f.toNat!
   | ["MATCH", i, hex] => matchVerdict c i.toNat! (unhex hex)
+  | ["UTF8SEQ"] => " ".intercalate (c.hirs.toList.map fun h => if Utf8Enc.hirClassesExact h then "1" else "0")
   | ["CLSOK"] => " ".intercalate (c.hirs.toList.map fun h => if h.clsOK then "1" else "0")
   | ["GREEDY"] => " ".intercalate (c.hirs.toList.map fun h => if h.greedyFixed then "1" else "0")
   | ["PRIO"] => " ".intercalate (c.hirs.toList.map fun h => toString h.complexity)
